@@ -56,7 +56,7 @@ class C18(Config):
               "Local Open Scope Z_scope.")
     bin = "c18"
     release_too = False
-    n_tags = 40
+    n_tags = 84           # 42 path tags x {pure, persisted}; 44/46 (shift + Reevaluate/Complete) and 1 (no-op, pure) are unreachable
     shard_size = 400
     classes = {}          # both classes were repaired in /repo (known_findings.d/C18.json, kind "fixed")
     rule = ("one case per executed public API call on a MigrationState (store_proved_transaction, apply_signature, "
@@ -71,6 +71,7 @@ class C18(Config):
         "vlib/props/c18.py extractors (constants of scheduling.rs / zip318.rs, shape checks of next_step, next_broadcastable, is_terminal, advance_migration)",
         "harness/wallet/src/bin/c18.rs: state printers, scripted PoolMigrationWrite store (oracle tables), scripted RNG, SQLite round-trip comparison by Rust PartialEq",
         "the model omits PCZT bytes, lock owners, nullifier caches and the advisory outlook (Advance::next)",
+        "coq/C18/Store.v is a row-level model of store.rs written by reading; it is tied to the code only through the SQLite verdicts of the persistence stream (replace_migration / latest_migration / get_migration / list_migrations on a real wallet database at every step)",
     ]
     assumptions = [
         "transaction ids unique within a migration (the store keys rows by id)",
@@ -78,7 +79,12 @@ class C18(Config):
         "the store oracle is a pure function of the queried transaction row within one advance_migration call",
         "drive-loop termination is not proved: theorems about advance hold for every call that returns (model fuel 4n+8; every generated call returned within it)",
     ]
-    partial_clauses = []
+    partial_clauses = [
+        "termination of the advance_migration drive loop is not proved (fuelled model; every theorem about advance is for calls that return)",
+        "no-silent-stranding at the drive API is proved for stores that never answer NotYetSatisfiable within the call (a deferral makes Waiting the documented report); at the kernel it is unconditional",
+        "rebuild_expired_transfer (engine.rs), which replaces an expired transfer by a new Signed/AwaitingSignature transaction under the same id, is outside the modelled events",
+        "store_roundtrip is proved on the row model for the transaction and dependency tables; denomination / preparation-plan / nullifier / PCZT columns are covered by the SQLite round trips only",
+    ]
 
     @staticmethod
     def gen():
